@@ -8,7 +8,8 @@ namespace gen {
 static const ref::u128 U1 = 1;
 static inline ref::u128 boundary_value(Ctx &c) {
     static const int sh[] = {7, 14, 21, 28, 31, 32, 35, 42, 49, 56, 62, 63, 64, 70, 31, 32, 63, 64, 64, 64};
-    switch (c.draw(5)) {
+    switch (c.draw(c.gver >= 2 ? 6 : 5)) {
+    case 6: return (U1 << 64) - 1 - c.draw(600);       // so close to 2^64 that adding a header length or a few other sizes overflows
     case 0: return c.draw(3);
     case 1: return 127 + c.draw(2);
     case 2: { ref::u128 b = U1 << sh[c.pick(20)]; uint64_t k = c.draw(4); return k == 0 ? b - 1 : k == 1 ? b : k == 2 ? b + 1 : k == 3 ? b + c.draw(70000) : b - 1 - c.draw(70000); }
